@@ -182,6 +182,22 @@ fn combo_small<C: Combo>(sink: &mut Sink, rng: &mut Rng, thorough: bool) {
 pub fn related<C: Combo>(rng: &mut Rng, depth: u8, a: &[Range<u64>]) -> Vec<Range<u64>> {
   let unit = cell_size::<C::T, C::Q>(depth);
   let n = n_cells::<C::T, C::Q>(depth);
+  // 1 in 4: a MOC lying entirely just AFTER (or just BEFORE) the extent of `a`, 0..3 cells away —
+  // the configuration that selects the quick-rejection / disjoint fast paths of the lazy operators
+  if !a.is_empty() && rng.chance(1, 4) {
+    let (first, last) = (a[0].start / unit, (a[a.len() - 1].end + unit - 1) / unit);
+    let gap = rng.below(4);
+    let len = 1 + rng.below(3);
+    if rng.chance(1, 2) {
+      let s = (last + gap).min(n);
+      let e = (s + len).min(n);
+      return if s < e { vec![s * unit..e * unit] } else { vec![] };
+    } else {
+      let e = first.saturating_sub(gap);
+      let s = e.saturating_sub(len);
+      return if s < e { vec![s * unit..e * unit] } else { vec![] };
+    }
+  }
   let mut bounds: Vec<u64> = Vec::new();
   for r in a {
     for v in [r.start / unit, (r.end + unit - 1) / unit] {
